@@ -43,7 +43,7 @@ ASSUMPTIONS = [
     "pandas/parquet I/O is not intercepted; workloads use str, bytes and pickled results",
     "crash points are complete per sampled workload only; workloads are sampled",
 ]
-PROBES = ["literal_kill_crosscheck", "recoveries_executed", "crash_blob_present_meta_absent", "crash_half_blob", "crash_half_meta", "crash_between_remove_and_symlink",
+PROBES = ["root_is_kept", "literal_kill_crosscheck", "recoveries_executed", "crash_blob_present_meta_absent", "crash_half_blob", "crash_half_meta", "crash_between_remove_and_symlink",
           "crash_during_store_creation", "crash_link_tmp_or_rename", "crash_rekeep", "second_crash",
           "crash_nested_data_dir"]
 
@@ -51,7 +51,8 @@ PROBES = ["literal_kill_crosscheck", "recoveries_executed", "crash_blob_present_
 def gen_case(streams, tier, avoid):
     cfg = streams.get("config")
     rng = streams.get("program")
-    prog = workloads.gen_program(rng, big=cfg.random() < 0.6)
+    root_kept = cfg.random() < 0.4
+    prog = workloads.gen_program(rng, big=cfg.random() < 0.6, root_kept=root_kept)
     names = sorted(prog["funcs"])
     setup = cfg.choice([0, 1, 1, 2])
     edit = None
@@ -65,6 +66,8 @@ def gen_case(streams, tier, avoid):
         "nested_dirs": cfg.random() < 0.3,
         "crash_plan": None,
         "second": 0,
+        # how the root is evaluated: dds.eval(f0), or - for a root that is a data function - the plain call f0()
+        "root_style": cfg.choice(["call", "call", "eval"]) if root_kept else "eval",
     }
     case["second"] = cfg.choice([0, 0, 2]) if tier == "quick" else cfg.choice([0, 3, 6])
     case["second_seed"] = cfg.randrange(1 << 30)
@@ -169,7 +172,11 @@ def _run(case, root):
                 {"op": "import", "srcdir": src, "modules": [ir.modname(old, "m0")], "accept": ["pk"],
                  "invoke_gate": False}] + ops
 
-    ev = {"op": "eval", "entry": entry, "invoke_gate": False}
+    ev = {"op": case.get("root_style", "eval"), "entry": entry, "invoke_gate": False}
+    if old["funcs"]["f0"]["kind"] == "data":
+        probe_root = True
+    else:
+        probe_root = False
     log = []
     violations = []
     probes = {}
@@ -180,6 +187,9 @@ def _run(case, root):
 
     def probe(n):
         probes[n] = probes.get(n, 0) + 1
+
+    if probe_root:
+        probe("root_is_kept")
 
     def run_to_end(jb):
         sim = Sim(live, seed_hex)
@@ -496,6 +506,8 @@ def tags(case):
         t.add("edit")
     if case.get("cache"):
         t.add("cache")
+    if case["prog"]["funcs"]["f0"]["kind"] == "data":
+        t.add("root:kept")
     return sorted(t)
 
 
